@@ -55,8 +55,9 @@ def parse_cardinality(val):
         min_val = parsed_vals[0].strip()
         max_val = parsed_vals[1].strip()
 
-        min_int = min_val.isdigit() and int(min_val) >= 0
-        max_int = max_val.isdigit() and int(max_val) >= 0
+        # str.isdigit also accepts characters int() does not convert (e.g. superscripts)
+        min_int = min_val.isdecimal() and int(min_val) >= 0
+        max_int = max_val.isdecimal() and int(max_val) >= 0
 
         if min_int and max_int and int(max_val) >= int(min_val):
             return int(min_val), int(max_val)
@@ -129,6 +130,10 @@ def from_csv(value_string):
 
     if not value_string:
         return []
+    # A single value may be longer than the default field size limit of the csv module.
+    if len(value_string) >= csv.field_size_limit():
+        csv.field_size_limit(len(value_string) + 1)
+
     stream = StringIO(value_string)
     stream.seek(0)
     reader = csv.reader(stream, dialect="excel")
@@ -331,7 +336,12 @@ class XMLReader(object):
             string = re.sub(r"^\s*<\?xml[^>]*\?>", "", string, count=1)
 
         try:
-            root = ET.XML(string, self.parser)
+            try:
+                root = ET.XML(string, self.parser)
+            except ValueError:
+                # lxml still found (part of) an encoding declaration in the text;
+                # let it report what is wrong with the document itself.
+                root = ET.XML(string.encode("utf-8"), self.parser)
         except ET.XMLSyntaxError as exc:
             raise ParserException(exc.msg)
 
